@@ -213,10 +213,32 @@ class Hole(boolalg.BooleanFunction):
         return None
 
 
+class UFun(boolalg.BooleanFunction):
+    """Base of UNINTERPRETED boolean functions: a subclass made by `ufun(name)` applied to real sympy arguments is a real sympy node that
+    substitution (`xreplace`, `subs`) traverses like any other, and whose meaning is the z3 uninterpreted function `name` of the meanings of
+    its arguments.  An obligation proved about it holds for EVERY boolean function in its place (used for arbitrary callee bodies in C07)."""
+
+    @classmethod
+    def eval(cls, *a):
+        return None
+
+
+_UFUNS = {}
+
+
+def ufun(name):
+    if name not in _UFUNS:
+        _UFUNS[name] = type(name, (UFun,), {})
+    return _UFUNS[name]
+
+
 def sympy_to_z3(e):
     """Standard meaning of a real sympy Boolean tree, node by node."""
     if isinstance(e, Hole):
         return z3.Bool("hole_" + e.args[0].name)
+    if isinstance(e, UFun):
+        f = z3.Function(type(e).__name__, *([z3.BoolSort()] * (len(e.args) + 1)))
+        return f(*[sympy_to_z3(a) for a in e.args])
     if e is True or e is sympy.true:
         return z3.BoolVal(True)
     if e is False or e is sympy.false:
